@@ -1,10 +1,77 @@
-// C20 unit driver: engine simulator + `dumpscript` (command table from the binary) and `scriptn` (run a
-// script command given as a word list with explicit quoting: words are separated by '\x1f').
+// C20 unit driver: engine simulator + commands to exercise the scripting interface through its C entry points
+// (run_colvarscript_command / get_colvarscript_result, cvscript_n_commands / cvscript_command_names / n_args_min / n_args_max).
+//   dumpscript            command table of the binary
+//   scriptn w1\x1fw2...   run a script command given as a word list with explicit quoting: words are separated by '\x1f',
+//                         '\x1e' inside a word stands for a newline; prints "SCRIPT err=ok|error result=<text>"
+//   scriptfull ...        same, the result is printed untruncated
+//   names                 names of the variables and biases the module holds
+//   oncallback w1\x1f..   queue a script command that is run inside the scripted-forces callback of every later step
+//   writefile F text      write text ('\x1e' = newline) to file F
+//   gradgroups <cv>       what colvar::collect_cvc_gradients() is about to attribute: for every active component, every atom group
+//                         (then its fitting group) the pairs (atom id, contribution) in LISTING order, and the arrays
+//                         colvar::atom_ids / colvar::atomic_gradients as they are, all in hex floats
+#include <cstdio>
+#include <cstdlib>
+#include <cstring>
+#include <cmath>
+#include <iostream>
+#include <fstream>
+#include <sstream>
+#include <string>
+#include <vector>
+#include <map>
+#include <algorithm>
+#include <functional>
+#include <thread>
+#include <mutex>
+#include <list>
+#include <set>
+#include <memory>
+#include <iomanip>
+#include <unordered_map>
+#define private public
+#define protected public
 #include "vsim.h"
+#include "colvarcomp.h"
 #include "colvarscript_commands.h"
 
 struct c20_session : public vsim_session {
   c20_session(std::ostream *o) : vsim_session(o) {}
+  std::string current_line;
+  std::vector<std::vector<std::string> > callback_cmds;
+
+  static std::vector<std::string> split_words(std::string const &rest)
+  {
+    std::vector<std::string> words;
+    size_t pos = 0;
+    while (true) {
+      size_t q = rest.find('\x1f', pos);
+      if (q == std::string::npos) { words.push_back(rest.substr(pos)); break; }
+      words.push_back(rest.substr(pos, q - pos));
+      pos = q + 1;
+    }
+    for (auto &s : words) std::replace(s.begin(), s.end(), '\x1e', '\n');
+    return words;
+  }
+
+  static int run_words(std::vector<std::string> &words, std::string &res)
+  {
+    std::vector<unsigned char *> argv;
+    for (auto &s : words) argv.push_back((unsigned char *) s.c_str());
+    int err = run_colvarscript_command(argv.size(), argv.data());
+    res = get_colvarscript_result();
+    return err;
+  }
+
+  std::string rest_of_line(std::string const &cmd) const
+  {
+    size_t p = current_line.find(cmd);
+    if (p == std::string::npos) return std::string("");
+    p += cmd.size();
+    if (p < current_line.size() && current_line[p] == ' ') p++;
+    return p <= current_line.size() ? current_line.substr(p) : std::string("");
+  }
+
   bool exec_extra(std::string const &cmd, std::vector<std::string> const &a, std::istream &is) override
   {
     std::ostream &o = *out;
@@ -18,26 +85,15 @@ struct c20_session : public vsim_session {
       }
       return true;
     }
-    if (cmd == "scriptn") {
-      // the rest of the line after "scriptn " split on \x1f (allows empty words and blanks inside words)
-      std::string rest = a.size() ? current_line.substr(current_line.find("scriptn") + 8) : std::string("");
+    if (cmd == "scriptn" || cmd == "scriptfull") {
+      // the rest of the line split on \x1f (allows empty words and blanks inside words); no rest => zero words
       std::vector<std::string> words;
-      size_t pos = 0;
-      if (a.size()) {
-        while (true) {
-          size_t q = rest.find('\x1f', pos);
-          if (q == std::string::npos) { words.push_back(rest.substr(pos)); break; }
-          words.push_back(rest.substr(pos, q - pos));
-          pos = q + 1;
-        }
-      }
-      std::vector<unsigned char *> argv;
-      for (auto &s : words) argv.push_back((unsigned char *) s.c_str());
+      if (current_line.size() > cmd.size()) words = split_words(rest_of_line(cmd));
       cvm::clear_error();
-      int err = run_colvarscript_command(argv.size(), argv.data());
-      std::string res = get_colvarscript_result();
+      std::string res;
+      int err = run_words(words, res);
       std::replace(res.begin(), res.end(), '\n', ' ');
-      if (res.size() > 400) res = res.substr(0, 400);
+      if (cmd == "scriptn" && res.size() > 400) res = res.substr(0, 400);
       o << "SCRIPT err=" << (err == COLVARS_OK ? "ok" : "error") << " result=" << res << "\n";
       cvm::clear_error();
       return true;
@@ -50,9 +106,74 @@ struct c20_session : public vsim_session {
       o << "\n";
       return true;
     }
+    if (cmd == "oncallback") {
+      callback_cmds.push_back(split_words(rest_of_line(cmd)));
+      c20_session *self = this;
+      proxy->force_callback = [self]() {
+        for (auto &w : self->callback_cmds) {
+          std::string res;
+          std::vector<std::string> words(w);
+          int err = run_words(words, res);
+          std::replace(res.begin(), res.end(), '\n', ' ');
+          (*self->out) << "CALLBACK err=" << (err == COLVARS_OK ? "ok" : "error") << " result=" << res << "\n";
+        }
+        return COLVARS_OK;
+      };
+      return true;
+    }
+    if (cmd == "gradgroups") {
+      colvar *cv = cvm::colvar_by_name(a[0]);
+      if (!cv) { o << "GRADGROUPS " << a[0] << " notfound\n"; return true; }
+      o << "GRADGROUPS " << a[0] << " ids";
+      for (int id : cv->atom_ids) o << " " << id;
+      o << " grads";
+      for (auto const &g : cv->atomic_gradients) o << " " << vs_hex(g.x) << " " << vs_hex(g.y) << " " << vs_hex(g.z);
+      o << " groups";
+      for (size_t i = 0; i < cv->cvcs.size(); i++) {
+        colvar::cvc *c = cv->cvcs[i].get();
+        if (!c->is_enabled()) continue;
+        // the same expressions as cvc::collect_gradients; what is under test is the attribution to ids and the accumulation
+        cvm::real coeff = c->sup_coeff * cvm::real(c->sup_np) * cvm::integer_power(c->value().real_value, c->sup_np - 1);
+        for (size_t j = 0; j < c->atom_groups.size(); j++) {
+          cvm::atom_group &ag = *(c->atom_groups[j]);
+          o << " |";
+          if (ag.is_enabled(colvardeps::f_ag_rotate)) {
+            const auto rot_inv = ag.rot.inverse().matrix();
+            for (size_t k = 0; k < ag.size(); k++) {
+              cvm::rvector v = coeff * (rot_inv * ag[k].grad);
+              o << " " << ag[k].id << ":" << vs_hex(v.x) << ":" << vs_hex(v.y) << ":" << vs_hex(v.z);
+            }
+          } else {
+            for (size_t k = 0; k < ag.size(); k++) {
+              cvm::rvector v = coeff * ag[k].grad;
+              o << " " << ag[k].id << ":" << vs_hex(v.x) << ":" << vs_hex(v.y) << ":" << vs_hex(v.z);
+            }
+          }
+          if (ag.is_enabled(colvardeps::f_ag_fitting_group) && ag.is_enabled(colvardeps::f_ag_fit_gradients)) {
+            cvm::atom_group const &fg = *(ag.fitting_group);
+            o << " |";
+            for (size_t k = 0; k < fg.size(); k++) {
+              cvm::rvector v = coeff * fg.fit_gradients[k];
+              o << " " << fg[k].id << ":" << vs_hex(v.x) << ":" << vs_hex(v.y) << ":" << vs_hex(v.z);
+            }
+          }
+        }
+      }
+      o << "\n";
+      return true;
+    }
+    if (cmd == "writefile") {
+      std::string rest = rest_of_line(cmd);
+      size_t sp = rest.find(' ');
+      std::string fn = rest.substr(0, sp);
+      std::string text = sp == std::string::npos ? std::string("") : rest.substr(sp + 1);
+      std::replace(text.begin(), text.end(), '\x1e', '\n');
+      std::ofstream f(fn.c_str());
+      f << text;
+      return true;
+    }
     return false;
   }
-  std::string current_line;
 };
 
 int main(int argc, char **argv)
